@@ -188,3 +188,63 @@ func runReattachAged(proto string, age time.Duration) (impl, pred string) {
 	}
 	return impl, "ok"
 }
+
+// runTestModeProcDies (C03): a plugin served in TEST mode by a separate process (one run under a debugger, say); the host
+// attaches with the test-mode reattach configuration; the process dies: the client reports it as exited, the context
+// handed to gRPC plugin clients is cancelled.
+func runTestModeProcDies(proto string) (impl, pred string) {
+	base := fmt.Sprintf("%s/c03-tm-%d-%s", os.Getenv("VERIF_WORK"), os.Getpid(), proto)
+	os.MkdirAll(base, 0o755)
+	defer os.RemoveAll(base)
+	tp, err := startTestServerProc(proto, base)
+	if err != nil {
+		return "setup-error", "FAIL:setup-testserver"
+	}
+	defer tp.stop()
+	client := plugin.NewClient(&plugin.ClientConfig{
+		HandshakeConfig:  kitHandshake(),
+		Plugins:          kitHostSets(map[int]string{3: proto}, nil, nil)[3],
+		AllowedProtocols: []plugin.Protocol{plugin.ProtocolNetRPC, plugin.ProtocolGRPC},
+		Reattach:         tp.rc,
+		Logger:           nullLogger(),
+	})
+	defer func() { withTimeout(8*time.Second, func() error { client.Kill(); return nil }) }()
+	cp, err := client.Client()
+	if err != nil {
+		return "setup-error", "FAIL:setup-reattach"
+	}
+	raw, err := cp.Dispense("kit")
+	if err != nil {
+		return "setup-error", "FAIL:setup-dispense"
+	}
+	kit := raw.(Kit)
+	if _, err := kit.Double(2); err != nil {
+		return "setup-error", "FAIL:setup-double"
+	}
+	if client.Exited() {
+		return "exited-while-running", "FAIL:reported-exited-while-running"
+	}
+	tp.cmd.Process.Kill()
+	t0 := time.Now()
+	for !client.Exited() && time.Since(t0) < 6*time.Second {
+		time.Sleep(50 * time.Millisecond)
+	}
+	seen := time.Since(t0)
+	ctx := "-"
+	if gk, ok := kit.(*kitGRPCClient); ok {
+		select {
+		case <-gk.ctx.Done():
+			ctx = "1"
+		case <-time.After(3 * time.Second):
+			ctx = "0"
+		}
+	}
+	impl = fmt.Sprintf("exited=%s seen_ms=%d ctx=%s", b01(client.Exited()), seen.Milliseconds(), ctx)
+	switch {
+	case !client.Exited() || seen > 2500*time.Millisecond:
+		return impl, "FAIL:death-of-test-mode-plugin-process-not-reported"
+	case ctx == "0":
+		return impl, "FAIL:ctx-not-cancelled"
+	}
+	return impl, "ok"
+}
